@@ -541,12 +541,11 @@ def run_iter_cases(cases: list[dict], res: Result, start_index: int = 0) -> None
                                     "model": rep[0]})
 
 
-def run_iter(ctx: Ctx, res: Result, share: float) -> None:
-    """all functions; `share` of the remaining time may be used"""
+def run_iter(ctx: Ctx, res: Result, t_end: float) -> None:
+    """all functions, until the absolute time `t_end`"""
     quick = ctx.tier == "quick"
     maxlen = 5 if quick else 7
-    t_end = ctx.deadline - (1.0 - share) * max(ctx.time_left(), 0.0)
-    cap = ctx.n(2600, 60000)
+    cap = ctx.n(3600, 60000)
     rnd_n = ctx.n(40, 1500)
     sampled = res.stats.setdefault("subsampled_functions", {})
     focus_f = ctx.focus.get("f") if isinstance(ctx.focus, dict) and "f" in (ctx.focus or {}) else None
@@ -596,13 +595,16 @@ def run(ctx: Ctx) -> Result:
     tee_corpus = [c for c in corpus if "tee" in c]
     if it_corpus:
         run_iter_cases(it_corpus, res)
+    import time
+    now = time.time()
+    budget = max(5.0, min(38.0 if ctx.tier == "quick" else 640.0, ctx.time_left() - 8.0))
     focus_tee = isinstance(ctx.focus, dict) and "tee" in ctx.focus
     if focus_tee:
-        run_tee(ctx, res, tee_corpus, share=0.7)
-        run_iter(ctx, res, share=0.9)
+        run_tee(ctx, res, tee_corpus, now + 0.6 * budget)
+        run_iter(ctx, res, now + budget)
     else:
-        run_iter(ctx, res, share=0.72)
-        run_tee(ctx, res, tee_corpus, share=0.95)
+        run_iter(ctx, res, now + 0.62 * budget)
+        run_tee(ctx, res, tee_corpus, now + budget)
     return res
 
 
